@@ -20,6 +20,7 @@ static booster::intrusive_ptr<base_cache> cache;
 static int names=4;
 #include <sys/mman.h>
 #include <sys/wait.h>
+#include <signal.h>
 // counters live in shared memory so that forked processes (mode "proc") share them
 struct shared_counters { std::atomic<long> vcounter, progress; std::atomic<unsigned long long> seq; };
 static shared_counters *sh = new(mmap(0,sizeof(shared_counters),PROT_READ|PROT_WRITE,MAP_SHARED|MAP_ANONYMOUS,-1,0)) shared_counters();
@@ -144,7 +145,19 @@ int main(int argc,char **argv)
 				kids.push_back(pid);
 			}
 			bool bad=false;
-			for(size_t i=0;i<kids.size();i++) { int st=0; waitpid(kids[i],&st,0); if(!WIFEXITED(st) || WEXITSTATUS(st)!=0) bad=true; }
+			// a worker that dies inside a critical section leaves the process-shared lock held for ever:
+			// as soon as one worker ends abnormally (or nothing moves for 60 s) the others are killed
+			size_t left=kids.size(); long last=-1; int idle=0;
+			while(left>0) {
+				int st=0; pid_t p=waitpid(-1,&st,WNOHANG);
+				if(p>0) { left--; if(!WIFEXITED(st) || WEXITSTATUS(st)!=0) bad=true; }
+				else {
+					usleep(20000);
+					long pr=progress.load(); if(pr==last) idle++; else idle=0; last=pr;
+					if(idle>3000) bad=true;
+				}
+				if(bad && left>0) { for(size_t i=0;i<kids.size();i++) kill(kids[i],SIGKILL); while(waitpid(-1,&st,0)>0) ; left=0; }
+			}
 			if(bad) { bv::emit("\"e\":\"Died\",\"why\":\"worker process\""); bv::close(); return 0; }
 			bv::emit("\"e\":\"End\"");
 		}
